@@ -136,12 +136,30 @@ def run_tokeniser(prop, ev):
     return _handle(prop, "mtsym-tok4", results, ev, lambda r: "%s/%s#none" % (prop, r["type"]))
 
 
+def run_tracker(prop, ev):
+    """FieldConsumptionTracker from source (mtsym/trackcheck.py)"""
+    results = e2rules._run("trackcheck", "run", {})
+    ev.assumptions.append("FieldConsumptionTracker::{new,mark_consumed,get_next_available} are executed from source; the tracker state is "
+                          "the one reached from new() by marking an arbitrary subset (one symbolic Boolean each, later occurrences first) of "
+                          "three occurrences of one tag at strictly increasing symbolic positions, plus one mark of another tag; HashMap = map "
+                          "with concrete keys and symbolic presence, HashSet<usize> = guarded list of integer terms, entry / get_mut = "
+                          "write-through references")
+    ev.functions.update(["parser::swift_parser::FieldConsumptionTracker::{new,mark_consumed,get_next_available}"])
+    ev.bounds.append("one tag, 3 occurrences, positions < 100, any subset marked")
+    ev.outside.append("find_field_with_variant_sequential_constrained (the lookups that drive the tracker), more than three occurrences")
+    return _handle(prop, "mtsym-track", results, ev, lambda r: "%s/%s#none" % (prop, r["type"]))
+
+
 def replay_file(path):
     """replay of a witness written by one of the source-level field / header checkers: run it on the real build again"""
     from common import replay_batch
     payload = json.load(open(path))
     eng = payload.get("engine", "")
     w = payload.get("witness") or {}
+    if eng == "mtsym-track" and "positions" in w:
+        out = {"claimed": w.get("why"), "real_dev": replay_batch([{"op": "tracker", "positions": w["positions"], "marks": w["marked_in_order"]}], "dev")[0]}
+        print(json.dumps(out, indent=1)[:4000])
+        return EXIT_VIOLATION
     if eng == "mtsym-tok4" and "text" in w:
         out = {"claimed": w.get("why"), "real_dev": replay_batch([{"op": "block4_fields", "text": w["text"]}], "dev", timeout=20)[0]}
         print(json.dumps(out, indent=1)[:4000])
